@@ -73,7 +73,7 @@ def run_step(hdir_root, step_job, step_index, timeout=None):
     job.setdefault("dump_after", max(5, (timeout or backstop()) - 10))
     jp = os.path.join(job["hdir"], f"job_{step_index}.json")
     with open(jp, "w") as f:
-        f.write(jdump(job))
+        f.write(jdump(job, sort_keys=False))
     t0 = time.time()
     log = open(os.path.join(job["hdir"], f"log_{step_index}.txt"), "w")
     try:
